@@ -62,9 +62,9 @@ Section Func.
         unfold ls0. rewrite nth_error_app1 by (rewrite La; lia). assumption. }
     destruct (S (env_of fo args) ls0 Hsim Hd) as [O _].
     unfold spec_run, wasm_run. simpl w_body. simpl w_locals. fold ls0.
-    destruct (exec_block fo (f_tys f) (env_of fo args) (f_body f)) as [[r'|v|r'|r']| |]; simpl in *;
+    destruct (exec_block fo (f_tys f) (env_of fo args) (f_body f)) as [[r'|v rv|r'|r']| |]; simpl in *;
       try exact I.
-    - destruct O as [_ X]. rewrite X. reflexivity.
+    - destruct O as [_ (lsr & X)]. rewrite X. reflexivity.
     - rewrite O. reflexivity.
   Qed.
 End Func.
